@@ -16,6 +16,13 @@ using orc::rel;
 namespace {
 
 const orc::GenOpts kT{1.0, 3.0};  // tangents of the programs: translations <= 1, rotations <= 3
+constexpr long double kCap = 30.0L;  // translation-like coordinates of every intermediate result stay <= kCap (lever arm, see DESIGN 11.3)
+constexpr double kMaxW     = 1e5;    // an element's operation count (with multiplicity) stays within the stated 1..1e5
+
+const char * bucket(double r)
+{
+  return r <= 0.01 ? "<=1%" : (r <= 0.1 ? "<=10%" : (r <= 0.5 ? "<=50%" : (r <= 1 ? "<=100%" : ">100%")));
+}
 
 #ifndef VF_C15_ODEINT
 
@@ -26,23 +33,23 @@ G start_elem(vf::Tape & t, vf::Ctx & ctx)
   using S = Spec<G>;
   const auto how = t.choice(3);
   if (how == 0) return G::Identity();
-  if (how == 1) return G::exp(gen_tangent<G>(t, ctx, orc::GenOpts{100.0, 3.14}));
+  if (how == 1) return G::exp(gen_tangent<G>(t, ctx, orc::GenOpts{10.0, 3.14}));
   // public normalising / part-wise constructors where the type has them; otherwise exp
   if constexpr (std::is_same_v<G, SO2d>) {
     return SO2d(t.sym(10.0) + 0.1, t.sym(10.0));  // SO2(qz, qw) normalises
   } else if constexpr (std::is_same_v<G, SO3d>) {
     return SO3d(Eigen::Quaterniond(t.sym(5.0), t.sym(5.0), t.sym(5.0), t.sym(5.0) + 0.1));  // normalises, canonical sign
   } else if constexpr (std::is_same_v<G, SE2d>) {
-    return SE2d(SO2d(t.sym(3.2)), Eigen::Vector2d(t.sym(100.0), t.sym(100.0)));
+    return SE2d(SO2d(t.sym(3.2)), Eigen::Vector2d(t.sym(10.0), t.sym(10.0)));
   } else if constexpr (std::is_same_v<G, SE3d>) {
-    return SE3d(SO3d(Eigen::Quaterniond(t.sym(5.0), t.sym(5.0) + 0.1, t.sym(5.0), t.sym(5.0))), Eigen::Vector3d(t.sym(100.0), t.sym(100.0), t.sym(100.0)));
+    return SE3d(SO3d(Eigen::Quaterniond(t.sym(5.0), t.sym(5.0) + 0.1, t.sym(5.0), t.sym(5.0))), Eigen::Vector3d(t.sym(10.0), t.sym(10.0), t.sym(10.0)));
   } else if constexpr (std::is_same_v<G, C1d>) {
-    return C1d(t.lrange(0.1, 10.0), t.sym(3.2));
+    return C1d(t.lrange(0.2, 5.0), t.sym(3.2));
   } else if constexpr (std::is_same_v<G, Galileid>) {
-    return Galileid(SO3d::rot_z(t.sym(3.0)) * SO3d::rot_x(t.sym(3.0)), Eigen::Vector3d(t.sym(10.0), t.sym(10.0), t.sym(10.0)), Eigen::Vector3d(t.sym(100.0), t.sym(100.0), t.sym(100.0)), t.sym(5.0));
+    return Galileid(SO3d::rot_z(t.sym(3.0)) * SO3d::rot_x(t.sym(3.0)), Eigen::Vector3d(t.sym(3.0), t.sym(3.0), t.sym(3.0)), Eigen::Vector3d(t.sym(10.0), t.sym(10.0), t.sym(10.0)), t.sym(2.0));
   } else {
     (void)sizeof(S);
-    return G::exp(gen_tangent<G>(t, ctx, orc::GenOpts{100.0, 3.14}));
+    return G::exp(gen_tangent<G>(t, ctx, orc::GenOpts{10.0, 3.14}));
   }
 }
 
@@ -120,15 +127,32 @@ void c15_history(vf::Tape & t, vf::Ctx & ctx)
   }
   const int nops = 1 + static_cast<int>(t.choice(200));
   std::ostringstream prog;
-  int touched[R] = {0, 0, 0, 0}, inv_cnt = 0, exp_cnt = 0, clamped = 0;
-  double worst_unit = 0, worst_acc = 0;
+  // W[i]: number of operations (with multiplicity) that produced register i.  x*x doubles every error by
+  // conditioning alone, so the "n" of the statement is the size of the element's expression, not the program counter.
+  double W[R] = {3, 3, 3, 3};
+  int touched[R] = {0, 0, 0, 0}, inv_cnt = 0, exp_cnt = 0, clamped = 0, wcapped = 0;
+  double worst_unit = 0, worst_acc = 0, maxw = 0;
   for (int n = 1; n <= nops; ++n) {
     const int a = static_cast<int>(t.choice(R)), b = static_cast<int>(t.choice(R)), c = static_cast<int>(t.choice(R)), k = static_cast<int>(t.choice(R));
     int op = static_cast<int>(t.choice(9 + Extra<G>::n));
     MatL X;
     G x = E[a];
-    auto shadow = [&]() -> MatL {
-      switch (op) {
+    double w = 0;
+    auto weight = [&](int o) -> double {
+      switch (o) {
+      case 0: return W[b] + W[c] + 1;
+      case 1: return W[b] + 1;
+      case 2: return 1;
+      case 3: return W[b] + 1;
+      case 4: return W[a] + W[b] + 1;
+      case 5: return W[a] + 1;
+      case 6: return W[b] + 1;
+      case 7: return 2 * W[b] + W[c] + 3;
+      default: return std::max(W[a], W[b]) + 1;
+      }
+    };
+    auto shadow = [&](int o) -> MatL {
+      switch (o) {
       case 0: return M[b] * M[c];
       case 1: return orc::inverse(M[b]);
       case 2: return orc::exp_of<S, LD>(vecL(T[k]));
@@ -144,17 +168,22 @@ void c15_history(vf::Tape & t, vf::Ctx & ctx)
       T[k] = gen_tangent<G>(t, ctx, kT);  // refresh a tangent register (not a group operation)
       continue;
     }
+    if (weight(op) > kMaxW) {
+      ++wcapped;
+      op = 2;
+    }
+    w = weight(op);
     if (op >= 9) {
       X = M[a];
       if (!Extra<G>::apply(op - 9, x, X, E[b], M[b])) continue;
     } else {
-      X = shadow();
-      // translation-like coordinates are kept moderate (<= 1e3) by construction
-      if (maxabs<LD>(X) > 1e3L) {
+      X = shadow(op);
+      // translation-like coordinates are kept moderate (<= kCap) by construction; 1/kCap bounds C1's scale from below
+      if (maxabs<LD>(X) > kCap || maxabs<LD>(orc::inverse(X)) > kCap) {
         ++clamped;
-        op = 1;
-        X  = orc::inverse(M[b]);
-        if (maxabs<LD>(X) > 1e3L) continue;
+        op = 2;
+        w  = 1;
+        X  = shadow(op);
       }
       switch (op) {
       case 0: x = E[b] * E[c]; break;
@@ -170,19 +199,19 @@ void c15_history(vf::Tape & t, vf::Ctx & ctx)
     if (ctx.want_desc && n <= 40) prog << op << ":" << a << b << c << k << " ";
     E[a] = x;
     M[a] = X;
+    W[a] = w;
+    maxw = std::max(maxw, w);
     ++touched[a];
     // invariants after every step
     const VecL cf = coeffsL<G>(x);
     if (!ctx.require("coefficients finite", cf.allFinite(), "step " + std::to_string(n))) break;
-    const double ud = static_cast<double>(S::unit_defect(cf)) / ((n + 1) * 1e-14);
-    const double ac = rel(refM(x), X) / ((n + 1) * 1e-13);
+    const double ud = static_cast<double>(S::unit_defect(cf)) / ((w + 1) * 1e-14);
+    const double ac = rel(refM(x), X) / ((w + 1) * 1e-13);
     worst_unit = std::max(worst_unit, ud);
     worst_acc  = std::max(worst_acc, ac);
     if (!ctx.require("canonical sign q_w >= 0", S::canonical(cf), "step " + std::to_string(n))) break;
     if (ud > 1 || ac > 1) {
-      ctx.le("unit constraint within (n+1)*1e-14", ud, 1.0);
-      ctx.le("within (n+1)*1e-13 of the exact result of the same history", ac, 1.0);
-      ctx.fail("first failing step", std::to_string(n) + " op=" + std::to_string(op), "");
+      ctx.fail("first failing step", std::to_string(n) + " op=" + std::to_string(op) + " ops-in-element=" + std::to_string(static_cast<long>(w)), "");
       break;
     }
   }
@@ -192,6 +221,10 @@ void c15_history(vf::Tape & t, vf::Ctx & ctx)
   for (int v : touched) mx = std::max(mx, v);
   ctx.set_nontrivial(mx >= 10 && inv_cnt >= 1 && exp_cnt >= 1);
   if (clamped) ctx.label("history:clamped-to-moderate-translation");
+  if (wcapped) ctx.label("history:operation-count-capped-at-1e5");
+  ctx.label(std::string("history:unit-margin") + bucket(worst_unit));
+  ctx.label(std::string("history:accuracy-margin") + bucket(worst_acc));
+  ctx.label(maxw >= 1000 ? "history:element-ops>=1000" : (maxw >= 100 ? "history:element-ops>=100" : "history:element-ops<100"));
   if (ctx.want_desc) ctx.desc << type_name<G>() << " nops=" << nops << " program(op:abck)=" << prog.str();
 }
 
@@ -207,7 +240,7 @@ void c15_chain(vf::Tape & t, vf::Ctx & ctx)
   const int kind = static_cast<int>(t.choice(4));
   G x    = start_elem<G>(t, ctx);
   MatL X = refM(x);
-  const auto a = gen_tangent<G>(t, ctx, orc::GenOpts{0.01, 3.0});  // small translation per step keeps |t| <= 1e3 over 1e5 steps
+  const auto a = gen_tangent<G>(t, ctx, orc::GenOpts{3.0 / n, 3.0});  // small translation per step keeps |t| (and C1's log-scale) <= 3 over the chain
   const G g    = G::exp(a);
   const MatL Ge = orc::exp_of<S, LD>(vecL(a)), Gm = refM(g);
   if (ctx.want_desc) ctx.desc << type_name<G>() << " chain n=" << n << " kind=" << kind << " a=" << show(a);
@@ -221,7 +254,7 @@ void c15_chain(vf::Tape & t, vf::Ctx & ctx)
     case 2: x = (x * g).inverse(); X = orc::inverse(MatL(X * Gm)); break;
     default: x = g.inverse() * x * g; X = orc::inverse(Gm) * X * Gm; break;
     }
-    if (maxabs<LD>(X) > 1e3L) break;
+    if (maxabs<LD>(X) > kCap || maxabs<LD>(orc::inverse(X)) > kCap) break;
     if ((i & 15) == 0 || i == n) {
       const VecL cf = coeffsL<G>(x);
       if (!cf.allFinite() || !S::canonical(cf)) {
@@ -232,6 +265,8 @@ void c15_chain(vf::Tape & t, vf::Ctx & ctx)
       worst_acc  = std::max(worst_acc, rel(refM(x), X) / ((i + 1) * 1e-13));
     }
   }
+  ctx.label(std::string("chain:unit-margin") + bucket(worst_unit));
+  ctx.label(std::string("chain:accuracy-margin") + bucket(worst_acc));
   ctx.le("chain: unit constraint within (n+1)*1e-14", worst_unit, 1.0);
   ctx.le("chain: within (n+1)*1e-13 of the exact result", worst_acc, 1.0);
 }
@@ -295,9 +330,10 @@ void c15_odeint(vf::Tape & t, vf::Ctx & ctx)
 {
   using deriv_t = typename G::Tangent;
   using A       = ode::vector_space_algebra;
-  switch (t.choice(6)) {
-  case 0: run_stepper<G, ode::euler<G, double, deriv_t, double, A>>("euler", t, ctx); break;
-  case 1: run_stepper<G, ode::modified_midpoint<G, double, deriv_t, double, A>>("modified_midpoint", t, ctx); break;
+  // (modified_midpoint is not an explicit Runge-Kutta stepper and needs scale_sum_swap2, which the adaptor does
+  //  not provide: it does not compile with smooth states and is outside the statement)
+  switch (t.choice(5) + 1) {
+  case 1: run_stepper<G, ode::euler<G, double, deriv_t, double, A>>("euler", t, ctx); break;
   case 2: run_stepper<G, ode::runge_kutta4<G, double, deriv_t, double, A>>("runge_kutta4", t, ctx); break;
   case 3: run_stepper<G, ode::runge_kutta_cash_karp54<G, double, deriv_t, double, A>>("runge_kutta_cash_karp54", t, ctx); break;
   case 4: run_stepper<G, ode::runge_kutta_dopri5<G, double, deriv_t, double, A>>("runge_kutta_dopri5", t, ctx); break;
